@@ -5,8 +5,9 @@
 //! "every path of length ≤ D over k names" (k ≤ 3, D ≤ 4).  The real matchers are built with the
 //! public constructors; `visit(dir)` is taken at every universe path and `matches(p)` at every
 //! universe path, and compared with the Lean model (`Model/Matchers.lean`).
-//! The model gets each glob as a truth table over the universe, computed with the real
-//! single-pattern `GlobsMatcher` (assumption A5: regex/globset semantics are not modelled).
+//! The model gets each glob as the truth table of its anchored regex over the universe's tails,
+//! computed with the real single-pattern file-mode `GlobsMatcher` (assumption A5: regex/globset
+//! semantics are not modelled); the prefix-mode transformation `glob_to_prefix_regex` *is* modelled.
 //! Oracle (from the property text, independent of the model): the three clauses of soundness
 //! evaluated directly on the Rust results.
 use crate::rt::*;
@@ -60,14 +61,18 @@ impl GlobPat {
     fn add_to<'a>(&'a self, b: &mut GlobsMatcherBuilder<'a>, dir: &'a RepoPath) {
         if let FilePattern::FileGlob { pattern, .. } = &self.pat { b.add(dir, pattern); }
     }
-    /// truth table over the universe: value of the compiled pattern set on each tail
-    /// (index 0 = empty tail; only observable in prefix mode, through `visit(root)`)
-    pub fn table(&self, pfx: bool, uni: &[P]) -> String {
-        let mut b = GlobsMatcher::builder().prefix_paths(pfx);
+    /// truth table of the glob (the anchored regex `^P$`) over the universe's tails, computed with
+    /// the real single-pattern file-mode `GlobsMatcher`; index 0 = the empty tail, which is only
+    /// observable through the prefix-mode matcher (`^P(?:/|$)` accepts "" iff `^P$` does).
+    pub fn table(&self, uni: &[P]) -> String {
+        let mut b = GlobsMatcher::builder().prefix_paths(false);
         self.add_to(&mut b, RepoPath::root());
         let m = b.build();
+        let mut bp = GlobsMatcher::builder().prefix_paths(true);
+        self.add_to(&mut bp, RepoPath::root());
+        let mp = bp.build();
         uni.iter().map(|t| {
-            let v = if t.is_empty() { pfx && m.visit(RepoPath::root()) == Visit::AllRecursively } else { m.matches(&repo_path(t)) };
+            let v = if t.is_empty() { mp.visit(RepoPath::root()) == Visit::AllRecursively } else { m.matches(&repo_path(t)) };
             if v { '1' } else { '0' }
         }).collect()
     }
@@ -97,11 +102,11 @@ fn build(e: &E, globs: &[GlobPat]) -> Box<dyn Matcher> {
     }
 }
 
-struct Tables<'a> { globs: &'a [GlobPat], uni: &'a [P], cache: HashMap<(usize, bool), String> }
+struct Tables<'a> { globs: &'a [GlobPat], uni: &'a [P], cache: HashMap<usize, String> }
 impl Tables<'_> {
-    fn get(&mut self, g: usize, pfx: bool) -> &str {
+    fn get(&mut self, g: usize) -> &str {
         let (globs, uni) = (self.globs, self.uni);
-        self.cache.entry((g, pfx)).or_insert_with(|| globs[g].table(pfx, uni))
+        self.cache.entry(g).or_insert_with(|| globs[g].table(uni))
     }
 }
 
@@ -113,7 +118,7 @@ fn show_expr(e: &E, t: &mut Tables, out: &mut Vec<String>) {
         E::Pf(ps) => out.push(format!("P:{}", show_paths(ps))),
         E::G { pfx, pats } => {
             let body = if pats.is_empty() { "-".to_string() } else {
-                pats.iter().map(|(d, g)| format!("{}={}", show_path(d), t.get(*g, *pfx))).collect::<Vec<_>>().join(";")
+                pats.iter().map(|(d, g)| format!("{}={}", show_path(d), t.get(*g))).collect::<Vec<_>>().join(";")
             };
             out.push(format!("G:{}:{}", if *pfx { "p" } else { "f" }, body));
         }
@@ -294,7 +299,7 @@ pub fn run(cfg: &Cfg, out: &mut Out) {
     }
     // part 2: random expression trees, sizes small -> large
     let mut r = cfg.rng(30);
-    let rounds = cfg.n(400, 12000);
+    let rounds = cfg.n(1200, 20000);
     for round in 0..rounds {
         let (k, d) = match round % 6 { 0 => (2, 2), 1 => (2, 3), 2 | 3 => (3, 3), 4 => (2, 4), _ => (3, 4) };
         let uni = universe(k, d);
